@@ -33,6 +33,7 @@ var Kinds = []string{
 	"nni", "nni_undo", "nni_double", "rename", "rename_auto", "rename_regexp", "shuffle_tips", "clone", "subtree",
 	"reinit", "clear_lengths", "clear_supports", "comments_set", "comments_clear", "comments_add",
 	"scale_lengths", "round_supports", "resolve_named", "graft_tip_on_edge", "reroot_first", "edge_comments_set",
+	"rename_swap", "setname_swap",
 }
 
 // GenOp draws one operation. Arguments are drawn generously; the interpreter reduces the
@@ -84,6 +85,8 @@ func GenOp(t *rapid.T, kinds []string) Op {
 		sel(1)
 	case "rename":
 		sel(rapid.IntRange(1, 4).Draw(t, "nren"))
+	case "rename_swap", "setname_swap":
+		sel(2)
 	case "rename_auto", "rename_regexp":
 		flags(2)
 	case "clear_lengths":
@@ -363,6 +366,31 @@ func Apply(s *State, op Op) (int, error) {
 		if err := t.Rename(m); err != nil {
 			return Failed, err
 		}
+	case "rename_swap", "setname_swap":
+		// two tips exchange their names (Tree.Rename with a two-entry map, or Node.SetName twice):
+		// the tip set stays, the labelled topology changes, and nothing refreshes the split indexes
+		names := sortedTips(t)
+		if len(names) < 2 {
+			return Skipped, nil
+		}
+		a, b2 := names[sel(0)%len(names)], names[sel(1)%len(names)]
+		if a == b2 {
+			return Skipped, nil
+		}
+		if op.Kind == "rename_swap" {
+			if err := t.Rename(map[string]string{a: b2, b2: a}); err != nil {
+				return Failed, err
+			}
+		} else {
+			for _, tip := range t.Tips() {
+				switch tip.Name() {
+				case a:
+					tip.SetName(b2)
+				case b2:
+					tip.SetName(a)
+				}
+			}
+		}
 	case "rename_auto":
 		id := 1
 		internals, tips := b(0), b(1)
@@ -536,4 +564,37 @@ func Replay(t *tree.Tree, hist []Op) (out *tree.Tree, model *ref.Node, ok bool, 
 		return nil, nil, false, nil
 	}
 	return st.T, m, true, nil
+}
+
+// SameTaxa lists operations that keep the tip set and leave an unrooted tree unrooted: histories
+// drawn from them can precede a comparison with other trees on the same taxa. Several of them
+// change the labelled topology without refreshing the split indexes (rename_swap, setname_swap,
+// shuffle_tips, nni).
+var SameTaxa = []string{"reroot", "rotate", "sort", "rotate_node", "nni", "nni_undo", "nni_double", "shuffle_tips", "rename_swap", "setname_swap",
+	"clone", "reinit", "collapse_len", "resolve", "reroot_first", "scale_lengths", "unroot"}
+
+// GenHistoryOf draws 1..max operations of the given kinds.
+func GenHistoryOf(t *rapid.T, kinds []string, max int) []Op {
+	return rapid.SliceOfN(rapid.Custom(func(t *rapid.T) Op { return GenOp(t, kinds) }), 1, max).Draw(t, "history")
+}
+
+// Edited parses the model, indexes the tree (a tree that was used before), applies the history
+// and returns the edited tree with the model read back from it. ok is false when the result is
+// not usable (see Replay) or, with unrooted set, has a root of degree 2.
+func Edited(m *ref.Node, hist []Op, unrooted bool) (*tree.Tree, *ref.Node, bool, error) {
+	t, err := gt.FromModel(m)
+	if err != nil {
+		return nil, nil, false, err
+	}
+	if err := t.ReinitIndexes(); err != nil {
+		return nil, nil, false, err
+	}
+	t2, m2, ok, err := Replay(t, hist)
+	if err != nil || !ok {
+		return nil, nil, false, err
+	}
+	if unrooted && len(m2.Ch) < 3 {
+		return nil, nil, false, nil
+	}
+	return t2, m2, true, nil
 }
